@@ -5,24 +5,39 @@
    are described digit by digit, no encoder function is used).  Theorems:
      C06_writer_follows_layout   the bytes of the (model) writer satisfy the layout
      C06_layout_deterministic    the layout determines the bytes: any two encoders of the layout
-                                 produce the same file; in particular the bytes depend only on the
-                                 stored cell list, which C01's sorting makes independent of the order
-                                 in which cells were supplied (that part is checked on the
-                                 implementation by the permutation oracle of harness/c06.py)
+                                 produce the same file
+     C06_supply_order_irrelevant identical bytes whatever the order in which the cells were supplied:
+                                 C01's sorting theorem (Proofs/TriangleP, Model/Order.sort_cells =
+                                 Triangle.__init__'s sorted()) transported through the embedding
+                                 Model/BinEmbed.wire_of_base of the structural model's cells
+                                 (ordinals -> (y,m,d) by _ord2ymd; ints n/1024; the binary64 bytes of
+                                 floats are a parameter [fenc]; 1-d arrays; no n-d arrays / bool
+                                 values in Base).  Hypotheses as in C01: the cells are pairwise
+                                 comparable by `<` (no TypeError) and order-equivalent cells are
+                                 identical.  Holds for the structural and the faithful (Python ==)
+                                 writer alike; the check also permutes cells on the implementation.
      C06_layout_files_read_back  a file satisfying the layout -- whoever wrote it -- is read back
                                  exactly (hypotheses of C05: wf, no_0x88_key = known finding F9)
      C06_wrong_magic_rejected / C06_wrong_version_rejected
    The generated-constant obligations [v1_constants] and [layout_matches_model] live in
    coq/GenProps/C06_bin.v (they import GenBin.v regenerated from /repo on every run). *)
 From Coq Require Import ZArith List Bool Lia.
-From Bermuda Require Import Lib.Bytes Lib.BinParse Lib.StrSort Model.Binary Model.BinLayout
-     Proofs.BinaryTop Proofs.BinaryLayout Props.C05.
+From Coq Require Import Permutation.
+From Bermuda Require Import Lib.Bytes Lib.BinParse Lib.StrSort Model.Binary Model.BinLayout Model.BinEmbed
+     Proofs.BinaryTop Proofs.BinaryLayout Proofs.BinaryEmbed Props.C05.
+From Bermuda Require Model.Base Model.Order Proofs.TriangleP.
 Import ListNotations.
 Open Scope Z_scope.
 
-Theorem C06_writer_follows_layout : forall t, wf t -> no_0x88_key t -> Layout t (ser t).
+Theorem C06_writer_follows_layout : forall t, wf t -> Layout t (ser t).
 Proof. exact ser_layout. Qed.
 Print Assumptions C06_writer_follows_layout.
+
+(* ... and so do the bytes of the faithful writer (Python == as metadata test) on coherent triangles *)
+Theorem C06_faithful_writer_follows_layout : forall t,
+  wf t -> coherentb t = true -> pyeq_reflb t = true -> Layout t (ser_py t) /\ ser_py t = ser t.
+Proof. intros t H1 H2 H3. split; [now apply ser_py_layout | now apply ser_py_coherent]. Qed.
+Print Assumptions C06_faithful_writer_follows_layout.
 
 Theorem C06_layout_deterministic : forall t bs bs', Layout t bs -> Layout t bs' -> bs = bs'.
 Proof. exact layout_det. Qed.
@@ -32,6 +47,17 @@ Theorem C06_layout_files_read_back : forall t bs,
   wf t -> no_0x88_key t -> Layout t bs -> parse bs = ROk (cells t).
 Proof. exact layout_parse. Qed.
 Print Assumptions C06_layout_files_read_back.
+
+Theorem C06_supply_order_irrelevant : forall fenc cs cs',
+  Permutation cs cs' -> TriangleP.cells_comparable cs -> TriangleP.cells_separated cs ->
+  ser (map (wire_of_base fenc) (Order.sort_cells cs)) = ser (map (wire_of_base fenc) (Order.sort_cells cs')) /\
+  ser_py (map (wire_of_base fenc) (Order.sort_cells cs)) = ser_py (map (wire_of_base fenc) (Order.sort_cells cs')).
+Proof.
+  intros fenc cs cs' P Hc Hs. split.
+  - now apply ser_supply_order_irrelevant.
+  - now apply ser_with_supply_order_irrelevant.
+Qed.
+Print Assumptions C06_supply_order_irrelevant.
 
 (* a file without the magic number, or with another version, is rejected (ValueError) *)
 Theorem C06_wrong_magic_rejected : forall bs,
@@ -51,3 +77,21 @@ Proof.
   assert (H2 : no_0x88_key ex_tri) by (vm_compute; reflexivity).
   repeat split; auto. now apply ser_layout.
 Qed.
+
+(* the embedding is non-trivial: four int-valued cells in two slices that differ only in
+   loss_details (C01's example), supplied in two orders, give one well-formed 182-byte file *)
+Definition b_meta (cov : Z) : Base.meta :=
+  Base.mkMeta (Some [65]) None None None None None [] [([99], Base.MStr [cov])].
+Definition b_cells : list Base.cell :=
+  [ Base.mkCell Base.KCum 737425 737515 737606 None (b_meta 66) [([112], Base.VNum (Base.Num false 1024))];
+    Base.mkCell Base.KCum 737425 737515 737515 None (b_meta 65) [([112], Base.VNum (Base.Num false 2048))];
+    Base.mkCell Base.KCum 737425 737515 737515 None (b_meta 66) [([112], Base.VArr false [1024; 3072])];
+    Base.mkCell Base.KCum 737425 737515 737606 None (b_meta 65) [([112], Base.VNum (Base.Num false 1024))] ].
+Definition no_floats (_ : Z) : bytes := [].
+Example C06_supply_order_nonvacuous :
+  let w := map (wire_of_base no_floats) in
+  ser (w (Order.sort_cells b_cells)) = ser (w (Order.sort_cells (rev b_cells))) /\
+  wfb (w (Order.sort_cells b_cells)) = true /\ coherentb (w (Order.sort_cells b_cells)) = true /\
+  (150 <? length (ser (w (Order.sort_cells b_cells))))%nat = true /\
+  c_pstart (hd f9_cell (w (Order.sort_cells b_cells))) = (2020, 1, 1).
+Proof. vm_compute. repeat split; reflexivity. Qed.
